@@ -27,8 +27,17 @@ def comp_mixed(sig, r, beh):
 
 
 def check(tier, replay):
+    rep = vlib.Report("C09", tier, "model_checking")
+    # the single-file palette interface (dfp.c): which palette each call addresses, and that it reads back as written
+    model_flow("C09", tier, replay, spec="Pal.tla", mods="ops_pal", trace=("Trace_Pal.tla", "Trace_Pal.cfg"),
+               mc=[("MC_Pal.tla", "MC_Pal.cfg")],
+               gens=[("palettes (DFP): one behaviour per transition (<= 3 palettes; new / overwrite / chosen reference numbers, file re-creation, sequential and by-reference reads, restart)", "Gen_Pal.tla", "Gen_Pal_cover.cfg", "cover", {"sample": 8000}),
+                     ("palettes (DFP): simulate depth 16, up to 6 palettes", "Gen_Pal.tla", "Gen_Pal_sim.cfg", "sim", {"num_quick": 300, "num": 5000, "depth": 17, "sample": 8000})],
+               mutators={"Put", "WriteRef", "ReadRef", "Restart"}, need_actions=["Put", "Get", "ReadRef", "WriteRef", "Restart", "Count"],
+               rep=rep, finish=False, part="pal", tv_quick=6000,
+               assumptions=["palette interface (specs/Pal.tla): DFPputpal with overwrite is only generated after a palette was written or read in this file (the refused call leaves the file open inside the library)"])
     return model_flow(
-        "C09", tier, replay, spec="GRImage.tla", mods="ops_h,ops_gr", trace=("Trace_GRImage.tla", "Trace_GRImage.cfg"),
+        "C09", tier, replay, rep=rep, spec="GRImage.tla", mods="ops_h,ops_gr", trace=("Trace_GRImage.tla", "Trace_GRImage.cfg"),
         mc=[("MC_GRImage.tla", "MC_GRImage.cfg")],
         gens=[("one behaviour per transition: every rectangle/stride inside 2x2 and 3x2 images, 1 and 3 components, 3 write x 3 read interlaces, palette", "Gen_GRImage.tla", "Gen_GRImage_cover.cfg", "cover", {"sample": 15000}),
               ("the same under RLE/deflate/skphuff compression, chunk shapes, chunked+compressed, int16/int32/float32", "Gen_GRImage.tla", "Gen_GRImage_layouts.cfg", "cover", {"sample": 15000}),
